@@ -48,7 +48,10 @@ type RecStorage struct {
 	// NidOrder, when set, orders the records returned by LoadByNodeId: it
 	// receives the key ids found and returns them in the order to deliver.
 	NidOrder func(ids []string) []string
-	nid      bool
+	// NidEmptyOK: an unknown node id is answered with an empty set and no error (as a database-backed
+	// store might) instead of ErrNotFound
+	NidEmptyOK bool
+	nid        bool
 }
 
 func NewRecStorage(inner nodeenrollment.Storage, nodeIdLoader bool) *RecStorage {
@@ -278,6 +281,11 @@ func (r *RecStorage) LoadByNodeId(ctx context.Context, m nodeenrollment.MessageW
 		}
 	}
 	if len(fids) == 0 {
+		if r.NidEmptyOK {
+			set.Nodes = nil
+			r.end(rec, nil)
+			return nil
+		}
 		r.end(rec, nodeenrollment.ErrNotFound)
 		return nodeenrollment.ErrNotFound
 	}
